@@ -256,6 +256,36 @@ func TestVerif_C15_Conversions(t *testing.T) {
 			}
 		}
 		lcls += "/" + force
+		// TWO short quantities at once: the representative is chosen so that X (raw limbs) is a short integer T AND the inverse of
+		// Z (raw limbs) is a short integer w — the point has affine x = T*w, found by lifting. Integer arithmetic libraries take
+		// shortcuts when both operands of a product are one or two words long; code that hands raw limbs to them meets those only here.
+		if gen.Uniform(t, "two-short", 0, 6) == 0 {
+			short := func(label string) *big.Int {
+				words := gen.Uniform(t, label+".words", 1, 3)
+				v := new(big.Int).SetBytes(gen.RandBytes(gen.Rand(t, label+".seed"), 8*words))
+				if gen.Uniform(t, label+".sparse", 0, 2) == 0 {
+					v.SetUint64([]uint64{1, 2, 3, 1 << 63, ^uint64(0)}[gen.Uniform(t, label+".pick", 0, 4)])
+				}
+				if v.Sign() == 0 {
+					v.SetInt64(1)
+				}
+				return v
+			}
+			T, w := short("T"), short("w")
+			for i := 0; i < 40; i++ {
+				xa := new(big.Int).Mul(T, w)
+				xa.Mod(xa, gen.P)
+				if lifted, ok := sm2ref.LiftX(xa); ok {
+					W = lifted
+					winv := new(big.Int).ModInverse(w, gen.P)
+					l = new(big.Int).Mul(winv, c15RInv) // canonical Z whose Montgomery form is w^-1
+					l.Mod(l, gen.P)
+					lcls, wcls = fmt.Sprintf("two-short:%d,%d-words", (T.BitLen()+63)/64, (w.BitLen()+63)/64), "lifted"
+					break
+				}
+				T.Add(T, big.NewInt(1))
+			}
+		}
 		pt := c14FromRef(t, W)
 		c15ScaleBy(pt, l)
 		want := W
